@@ -15,6 +15,16 @@ Environment actions added to the model of Controller / ComponentState, each boun
                     `memo`); MemoNeverRuns, MemoEndsFinished, MemoOfferedNeverRuns, and the documented rule with a
                     memoized component counted as finished.
 
+While growing the model a genuine defect of the code was found (key race:finish-called-during-postMortemCheck):
+postMortemCheck takes no lock and never looks at finishCalled again, so a finish() that lands after the POSTMORTEM
+notification passed the filter (killController, or _stopComponents after a sibling failed) is followed by (A) a task
+launched under a component that is already final - nobody ever stops it - when Engine.restart was already running (restart
+hook), or (B) the final state being overwritten.  The specification names the deviation (action LatePostMortem, constant
+FixRestartRace = FALSE = the current code); the properties are checked on the repaired design (TRUE); the harness has
+pre-emption points inside the real postMortemCheck / Engine.restart at which the environment may kill the controller, those
+runs are matched against the current-code model and the properties evaluated on the logged real states.
+Plain reproduction with real threads: out/proposed_fixes/G02_kill_during_restart_hook_repro.py.
+
 The check: (1) TLC on the model with the environment actions switched on (invariants + action properties + deadlock check
 + Termination under fairness + per-action coverage); (1b) TLC prints every terminal state of the restart x memoization
 cases, the driver judges them with C02's rule (memoized / skipped = finished); (2) the REAL Controller runs sampled cases
@@ -52,13 +62,18 @@ ENVS = [None,
         dict(kill_p=0.04, sleep_p=0.3, wake_p=0.2, max_sleeps=2),
         dict(sleep_p=0.5, wake_p=0.08, max_sleeps=1),
         dict(kill_p=0.5),
-        dict(sleep_p=0.6, wake_p=0.15, max_sleeps=2, hold_asleep=True)]
+        dict(sleep_p=0.6, wake_p=0.15, max_sleeps=2, hold_asleep=True),
+        # the kill arrives inside postMortemCheck (which holds no lock): before its body / inside Engine.restart
+        dict(pm_kill_p=0.3, pm_where="pm-entry"),
+        dict(pm_kill_p=0.7, pm_where="in-restart")]
+RACE_KEY = "race:finish-called-during-postMortemCheck"
+RACE_PROPS = ("FinalAbsorbing", "NoRunAfterFinal", "NoLaunchAfterStop")
 
 
 def models(thorough):
     """(tag, shapes, environment switches, actions that must be covered)."""
     shapes = SS.G02_THOROUGH if thorough else SS.G02_QUICK
-    small = ["chain2", "stages2", "obs2", "xfail"] if thorough else ["stages2", "obs2"]
+    small = ["chain2", "stages2", "obs2", "xfail"] if thorough else ["chain2", "obs", "xfail"]
     return [
         ("kill", shapes, dict(kill=True, starts=(0, 1, 2), all_orders=False), ["ExternalKill"]),
         ("sleep", shapes, dict(max_sleeps=1, starts=(0, 1, 2), all_orders=thorough), ["SleepCall", "WakeUp"]),
@@ -66,6 +81,9 @@ def models(thorough):
         ("all", small, dict(kill=True, starts=(0, 1), max_sleeps=2 if thorough else 1, memo=True, all_orders=thorough),
          ["ExternalKill", "SleepCall", "WakeUp"]),
     ]
+
+
+RESTARTING = (3, 5, 6, 8)        # outcome sequences whose first execution is followed by a restart
 
 
 def gen_cases(shapes, per_start, rnd):
@@ -82,9 +100,11 @@ def gen_cases(shapes, per_start, rnd):
             for _ in range(per_start - 1):
                 memos.append(tuple(x for x in live if rnd.random() < 0.4))
             failing = [c for c in combos if any(SS.OUTSEQS[o - 1][-1] == "UnknownIssue" and n["stage"] >= start for o, n in zip(c, nodes))]
+            restarting = [c for c in combos if any(o in RESTARTING and n["stage"] >= start for o, n in zip(c, nodes))]
             for j, memo in enumerate(memos):
                 # every other case has a component (of a stage that runs) whose task exits unrecoverably, when the shape has one
-                oa = list(rnd.choice(failing if failing and j % 2 == 0 else combos))
+                # (and every fourth one whose task is restarted)
+                oa = list(rnd.choice(failing if failing and j % 2 == 0 else restarting if restarting and j % 4 == 1 else combos))
                 for i, n in enumerate(nodes):
                     if n["stage"] < start or n["node"] in memo:
                         oa[i] = min(n["outs"])
@@ -131,12 +151,21 @@ def run(tier):
         chk.add_tlc(r)
         chk.cov.setdefault("models", []).append(dict(model=tag, shapes=shp, env={k: (list(v) if isinstance(v, tuple) else v) for k, v in env.items()},
                                                    distinct=r["distinct"], generated=r["generated"], depth=r["depth"], wall_s=r["wall_s"]))
-    live_shapes = ["chain2", "stages2", "obs2", "xfail"] if thorough else ["stages2", "obs"]
+    live_shapes = ["chain2", "stages2", "obs2", "xfail"] if thorough else ["chain2", "xfail"]
     r = SC.model_check("g02live" + tier, live_shapes, ["Termination"], [], fixobs=FIXOBS, coverage=False, liveness=True,
                        kill=True, starts=(0, 1), max_sleeps=1, memo=thorough, all_orders=False)
     if r["violated"] or not r["ok"]:
         raise MachineryError("Scheduler.tla: Termination fails under fairness with the environment actions on:\n%s" % r["out"][-3000:])
     chk.add_tlc(r)
+    # ---- 1a'. the named deviation of the current code (LatePostMortem): TLC must find the property violations it causes
+    for prop in ("FinalAbsorbing", "NoRunAfterFinal"):
+        r = SC.model_check("g02race%s" % tier, ["chain2", "restart", "sibs"], [prop], [], fixobs=FIXOBS, coverage=False,
+                           kill=True, all_orders=False, fix_restart_race=False)
+        if r["violated"] != prop:
+            raise MachineryError("the model of the current code (FixRestartRace = FALSE) was expected to violate %s, TLC says %s:\n%s" % (
+                prop, r["violated"], r["out"][-2000:]))
+        chk.add_tlc(r)
+        chk.cov.setdefault("current_code_model_violates", []).append(prop)
     # ---- 1b. terminal states of the restart x memoization cases, all orderings: the documented rule
     r = SC.emit_terminals("g02" + tier, shapes, fixobs=FIXOBS, memo=True, starts=(0, 1, 2), all_orders=False)
     chk.add_tlc(r)
@@ -171,12 +200,19 @@ def run(tier):
     for h in runs:
         if h.threads:
             raise MachineryError("harness leaked threads: %s" % h.threads)
-    ok_runs = [h for h in runs if not h.crash]
-    results, tl = SC.validate_traces("g02" + tier, shapes, ok_runs, fixobs=FIXOBS, props=TRACE_PROPS)
-    for t in tl:
-        chk.add_tlc(t)
-    resmap = {id(h): res for h, res in zip(ok_runs, results)}
+    # runs in which the environment pre-empted postMortemCheck are matched against the model of the CURRENT code (with the
+    # named deviation LatePostMortem), the others against the repaired design; the properties are evaluated on both
+    resmap = {}
+    for grp, fixed in (([h for h in runs if not h.crash and not h.preempted], True), ([h for h in runs if not h.crash and h.preempted], False)):
+        if not grp:
+            continue
+        results, tl = SC.validate_traces("g02%s%s" % (tier, "" if fixed else "pm"), shapes, grp, fixobs=FIXOBS, props=TRACE_PROPS,
+                                         fix_restart_race=fixed)
+        for t in tl:
+            chk.add_tlc(t)
+        resmap.update({id(h): res for h, res in zip(grp, results)})
     cnt = collections.Counter()
+    race = []
     for h in runs:
         feat = feature_of(h)
         chk.evaluated((h.shape_name, tuple(h.oa), h.start, tuple(sorted(h.memo)), tuple(sorted(h.nopop)), json.dumps(h.sched)))
@@ -192,6 +228,18 @@ def run(tier):
                 what, h.stuck, json.dumps(describe(h, len(h.trace) - 2))[:1200]), rp)
             continue
         res = resmap[id(h)]
+        if h.preempted:
+            cnt["race:runs-with-kill-inside-postMortemCheck"] += 1
+        if res is not None and res["kind"] == "property" and h.preempted and race_step(h, res):
+            flavour = "A task launched under a final component" if res["prop"] in ("TNoRunAfterFinal", "TNoLaunchAfterStop") else \
+                "B final state overwritten"
+            cnt["race:" + flavour.split()[0]] += 1
+            e = h.trace[res["step"]]
+            # reported after everything else (a recorded class must not push other keys out of the printed lines)
+            race.append((RACE_KEY, "%s: killController() arrived %s of %s; afterwards (%s) %s is false on the real states: %s" % (
+                what, "inside Engine.restart" if h.preempted[0][0] == "in-restart" else "between the finishCalled filter and the body of postMortemCheck",
+                e["arg"], flavour, res["prop"], json.dumps(describe(h, res["step"] - 1))[:1200]), rp))
+            continue
         if res is not None:
             chk.violation(key_for_trace(h, res), "%s: %s at step %s: %s" % (what, res["kind"], res.get("step"),
                                                                            json.dumps(describe(h, res.get("step")))[:1500]), rp)
@@ -214,12 +262,16 @@ def run(tier):
         cnt["real_runs_judged_by_rule"] += 1
         for complaint in judge(h.shape_name, rule, unrec, cs, verdict):
             chk.violation("outcome:%s:%s" % (feat, h.shape_name), "real run: %s: %s" % (what, complaint), rp)
+    other = len(chk.violations)
+    for key, text, rp in race:
+        chk.violation(key, text, rp)
     chk.cov["real"] = dict(sorted(cnt.items()))
+    chk.cov["violations_other_than_%s" % RACE_KEY] = other
     # vacuity guards on the real runs (only meaningful when nothing was reported: a breakage may remove the witnesses)
     if not chk.violations:
         for w in ("kill:something-alive", "kill:while-running", "restart:consumer-of-skipped-launched", "sleep:finishedCheck-postponed",
                   "sleep:postponed-failure-replayed", "sleep:pass-while-asleep", "memo:memoized", "memo:unpopulated-ran",
-                  "memo:consumer-of-memoized-launched", "kill:while-asleep"):
+                  "memo:consumer-of-memoized-launched", "kill:while-asleep", "race:runs-with-kill-inside-postMortemCheck"):
             if not cnt[w]:
                 raise MachineryError("no real run witnesses %s: %s" % (w, dict(cnt)))
     h = next((x for x in runs if len(x.externals) >= 2 and not x.crash), runs[0])
@@ -236,9 +288,19 @@ def run(tier):
                         "comp_lock in the code, so they cannot interleave with a scheduler pass or a finishedCheck)",
                         "the memoization database is a fake below the real can_memoize / _memoize_populate_component_workdir",
                         "TLC: exhaustive per model (see coverage.models); schedules of the real code are sampled (seeded)",
-                        "postMortemCheck takes no lock in the code; the model treats it as atomic (a kill racing with a restart "
-                        "inside postMortemCheck is not explored)"]
+                        "postMortemCheck takes no lock in the code: the harness pre-empts it at two points (entry; inside the real "
+                        "Engine.restart before the restart hook) with an external kill only - a finish() coming from a sibling's "
+                        "finishedCheck at those points is modelled (LatePostMortem) but not injected"]
     return chk.finish()
+
+
+def race_step(h, res):
+    """The property is false on the step of the postMortemCheck the environment pre-empted."""
+    st = res.get("step")
+    if st is None or st >= len(h.trace):
+        return False
+    e = h.trace[st]
+    return e["ev"] == "PostMortemCheck" and any(e["arg"] == ref and idx < st for _w, ref, idx in h.preempted)
 
 
 def count_witnesses(h, cnt):
